@@ -8,7 +8,7 @@ def run(run):
     run.rule = ('contexts as C03; observables: for every concept the sets of upper / lower neighbor extents (no repeats, converse), '
                 'Context.neighbors(objects) for all / sampled object subsets; a case = one context or one neighbors() query')
     d = run.driver
-    for tab, pc in lat.contexts(run, exh_quick=9, rand_quick=400, wide_quick=30, exh_thorough=12, nmax=9, mmax=9):
+    for tab, pc in lat.contexts(run, exh_quick=10, rand_quick=500, wide_quick=30, exh_thorough=14, nmax=9, mmax=9):
         if min(pc.n, pc.m) > 12:
             continue
         extra = {'objects': pc.objects, 'properties': pc.properties, 'bools': pc.bools}
